@@ -1,6 +1,7 @@
 import XdistModel.Driver.Util
 import XdistModel.Pure.Options
 import XdistModel.Pure.Looponfail
+import XdistModel.Ctl.DSession
 /-
   Line protocol front end for the pure / near-pure functions (one line in, one line out).
 -/
@@ -104,6 +105,10 @@ def handle (st : St) (line : String) : St × String :=
     | some cf =>
       let r := Looponfail.loopOnce (parseStrList fails) (parseStrList trails) cf
       (st, s!"{showStrList r} {showBool (Looponfail.wasFailing (parseStrList fails))}")
+  | ["restart", explicit, np] =>
+    match parseOptInt explicit, parseOptInt np with
+    | some ex, some n => (st, showOptInt (Xdist.Ctl.defaultMaxRestart ex n))
+    | _, _ => (st, "bad-op")
   | ["tx", l] =>
     match Options.expand ((parseStrList l).map String.toList) with
     | .ok r => (st, s!"ok {showStrList (r.map String.ofList)}")
